@@ -1322,7 +1322,12 @@ func ruleC16(c *Ctx) {
 			}
 			b64 := "(*encoding/base64.Encoding).EncodeToString(encoding/base64.StdEncoding, (*etree.Document).WriteToBytes(" + docP + ")#0)"
 			c.check(get("URL") == ps.URLField, "C16-R3", fname, ".URL <- "+ps.URLField+" ["+label+"]", pos, "wired", ".URL is "+get("URL")+", want "+ps.URLField)
-			c.check(get(ps.B64Field) == b64, "C16-R3", fname, "."+ps.B64Field+" <- base64(document) ["+label+"]", pos, "wired", "."+ps.B64Field+" is "+get(ps.B64Field))
+			b64got := get(ps.B64Field)
+			if wb := "(*etree.Document).WriteToBytes(" + docP + ")#0"; b64got == `""` && (atoms["!(0 < len("+wb+"))"] || atoms["len("+wb+") == 0"] || atoms["len("+wb+") < 1"]) {
+				// `if len(buf) > 0 { enc = base64(buf) }`: the base64 text of no bytes is the empty string
+				b64got = b64
+			}
+			c.check(b64got == b64, "C16-R3", fname, "."+ps.B64Field+" <- base64(document) ["+label+"]", pos, "wired", "."+ps.B64Field+" is "+get(ps.B64Field))
 			if withRelay {
 				c.check(get("RelayState") == relay, "C16-R3", fname, ".RelayState <- relayState ["+label+"]", pos, "wired", ".RelayState is "+get("RelayState"))
 			}
